@@ -6,10 +6,11 @@
 EXTENDS HashMap, TLC
 
 CONSTANTS Ptrs, Vals, MaxSteps, FlagWords
-VARIABLES steps
 
-mcvars == <<live, cfg, m, it, kd, vd, steps>>
-Step == steps < MaxSteps /\ steps' = steps + 1
+mcvars == <<live, cfg, m, it, kd, vd>>
+Step == TRUE
+(* exploration depth is bounded by a state constraint on the BFS level, so equal states reached at different depths coincide *)
+Bound == TLCGet("level") <= MaxSteps + 1
 
 KeyFree(t, c, p) == LET k == KObj(c, p) IN
     \/ k = 0
@@ -23,8 +24,6 @@ Bools == BOOLEAN
 MCInit == /\ \E d \in Bools : /\ live = [t \in Tabs |-> t = 1]
                             /\ cfg = [t \in Tabs |-> IF t = 1 THEN [dk |-> d, dv |-> d] ELSE NoCfg]
           /\ m = [t \in Tabs |-> EmptyMap] /\ it = NoIter /\ kd = EmptyBag /\ vd = EmptyBag
-          /\ steps = 0
-
 MCInitT == Step /\ \E t \in Tabs, k \in Bools, v \in Bools : Init(t, k, v)
 MCPut == Step /\ \E t \in Tabs, c \in Classes : \E p \in PtrsOf(c), v \in Vals :
             /\ KeyFree(t, c, p) /\ ValFree(v)
@@ -39,8 +38,8 @@ MCCreate == Step /\ \E t \in Tabs, c \in Classes : \E p \in PtrsOf(c), sv \in Va
 MCCreateFound == Step /\ \E t \in Tabs, c \in Classes : \E p \in PtrsOf(c) :
             /\ live[t] /\ m[t][c] # Nil
             /\ Create(t, c, p, FALSE, KeyOf(t, c), m[t][c].v, -1)
-MCFind == Step /\ \E t \in Tabs, c \in Classes : \E ek \in {-1} \cup {KObj(c, p) : p \in PtrsOf(c)}, ev \in Vals \cup {-1, 0} :
-            Find(t, c, ek, ev)
+MCFind == Step /\ \E t \in Tabs, c \in Classes : live[t] /\
+            IF m[t][c] = Nil THEN Find(t, c, -1, -1) ELSE Find(t, c, KeyOf(t, c), m[t][c].v)
 MCRemove == Step /\ \E t \in Tabs, c \in Classes, w \in Bools :
             /\ live[t]
             /\ LET pr == m[t][c] # Nil IN
@@ -66,8 +65,8 @@ MCIterDelete == Step /\ it.on /\ it.st = "ready" /\ \E d \in Bools :
 RECURSIVE VisFrom(_, _)
 VisFrom(t, C) == {<<>>} \cup UNION {{<<[k |-> KeyOf(t, c), v |-> m[t][c].v, f |-> f]>> \o s : s \in VisFrom(t, C \ {c})} :
                                     c \in C, f \in FlagWords}
-MCForEach == Step /\ \E t \in Tabs : live[t] /\ \E vis \in VisFrom(t, Present(t)), ok \in Bools :
-                 ForEach(t, vis, ok, EmptyBag, EmptyBag)
+MCForEach == Step /\ \E t \in Tabs : live[t] /\ \E vis \in VisFrom(t, Present(t)) :
+                 ForEach(t, vis, ~(Len(vis) > 0 /\ FErr(vis[Len(vis)].f)), EmptyBag, EmptyBag)
 
 MCNext == MCInitT \/ MCPut \/ MCCreate \/ MCCreateFound \/ MCFind \/ MCRemove \/ MCRemoveElement \/ MCClear
           \/ MCCleanUp \/ MCSwap \/ MCMove \/ MCIterBegin \/ MCIterNext \/ MCIterDelete \/ MCForEach
